@@ -30,7 +30,7 @@ TIERS = {
 MODES = ["det", "det", "ssa", "ssa", "ssa_safe", "volume", "volume", "delay", "delay", "lineage", "lineage"]
 
 
-def add_rules(r, model, grid, det):
+def add_rules(r, model, grid, det, lineage=False):
     """Adds rule species / parameters and the rule list. Returns the list of observer descriptions."""
     species = list(model["species"])
     rules = []
@@ -58,6 +58,13 @@ def add_rules(r, model, grid, det):
         rules.append({"type": "assignment", "target": "Y", "expr": expr, "freq": "repeated"})
         deps.append("Y")
         obs.append({"kind": "repeated_species", "target": "Y"})
+    if not lineage and seeds.rng(r.getrandbits(32), "volrule").random() < 0.4:
+        # a repeated rule that reads the cell volume (the given number in volume mode, 1 where no volume is in play)
+        a = r.choice(deps)
+        model["species"].append("Wv")
+        model["init"]["Wv"] = 0
+        rules.append({"type": "assignment", "target": "Wv", "expr": ["+", ["*", ["num", 2.0], ["vol"]], ["sp", a]], "freq": "repeated"})
+        obs.append({"kind": "repeated_species", "target": "Wv"})
     # a rule-assigned rate parameter feeding a mass-action reaction
     ma = [i for i, x in enumerate(model["reactions"]) if x["type"] == "massaction"]
     if ma and r.random() < 0.7:
@@ -141,7 +148,20 @@ def gen_case(case_seed, cfg):
         for rx in case["model"]["reactions"]:
             if rx["type"] != "massaction" and rm.consumption(rx):
                 rx["products"] = list(rx["reactants"])      # make it a pure catalyst (net zero)
-    case["observers"] = add_rules(r, case["model"], case["grid"], det=(mode == "det"))
+    case["observers"] = add_rules(r, case["model"], case["grid"], det=(mode == "det"), lineage=(mode == "lineage"))
+    if mode == "lineage":
+        rl = seeds.rng(case_seed, "lin_death")
+        if rl.random() < 0.5:
+            # a death rule watching a reacting species or a rule target: the cell's last row is a reported row like any other
+            m = case["model"]
+            st = {s_: float(m["init"].get(s_, 0)) for s_ in m["species"]}
+            rm.apply_rules(m, st, dict(m["params"]), 0.0, True, 1.0)
+            cand = [s_ for s_ in m["species"] if s_ not in ("cnt", "mk", "snap", "z", "st")]
+            sp_ = rl.choice(cand)
+            if rl.random() < 0.5:
+                case["lin_death"] = {"kind": "rule_species", "specie": sp_, "threshold": st[sp_] + rl.choice([1, 2, 4, 8]) - 0.5, "comp": ">"}
+            else:
+                case["lin_death"] = {"kind": "rule_species", "specie": sp_, "threshold": st[sp_] - rl.choice([1, 2, 4]) + 0.5, "comp": "<"}
     if any(ru["target"] in case["model"]["params"] for ru in case["model"]["rules"]) or mode in ("det", "lineage"):
         case["prelude"] = None     # a rule that assigns a parameter makes the outcome depend on earlier simulations (C08's caveat)
     elif case.get("prelude") == "det":
@@ -322,7 +342,12 @@ def run_case(case):
         viols += v
         if raw is not None and not raw.get("error"):
             viols += repeated_rules_hold(case, raw, stats)
-            viols += schedule_oracles(case, raw, stats)
+            sraw = raw
+            if case.get("lin_death") and raw["rows"].shape[0] >= 1:
+                # the closing row of a cell that may have died is written at the death instant, not after a full step:
+                # the per-step schedule oracles stop before it (the repeated rules above and the lock-step below include it)
+                sraw = dict(raw, rows=raw["rows"][:-1])
+            viols += schedule_oracles(case, sraw, stats)
             if not viols:
                 from simkit import lineage_ref
                 viols += lineage_ref.lockstep_single_cell(case, raw, stats)
@@ -370,6 +395,8 @@ def shrink(case):
         yield dict(case, prelude=None)
     if case.get("reinit"):
         yield dict(case, reinit=case["reinit"] - 1)
+    if case.get("lin_death"):
+        yield dict(case, lin_death=None)
     # drop observers / rules one at a time
     for i, ru in enumerate(m["rules"]):
         used = ru["target"] in ("kr", "ksw")
